@@ -136,6 +136,44 @@ func prepare(repo, verif string) (*load.Program, error) {
 			next.RawID = kit.RawFuncID
 			prog = next
 		}
+		// scalar replacement of local aggregates of struct types the reference tree does not have
+		{
+			refStruct := map[string]bool{}
+			for _, sa := range table.Structs {
+				refStruct[sa.Pkg+"."+sa.Name] = true
+			}
+			isNewStruct := func(pkgPath, name string) bool {
+				return strings.HasPrefix(pkgPath, load.RootPkg) && !refStruct[pkgPath+"."+name]
+			}
+			if sr, ns := load.ScalarReplace(prog.Pkgs, isNewStruct, read); len(sr) > 0 {
+				saved := map[string][]byte{}
+				for k, v := range sr {
+					if old, ok := overlay[k]; ok {
+						saved[k] = old
+					}
+					overlay[k] = v
+				}
+				if next, lerr := load.LoadOverlay(repo, overlay); lerr == nil {
+					next.RawID = kit.RawFuncID
+					prog = next
+					notes = append(notes, ns...)
+					if d := os.Getenv("VCHECK_DUMP_OVERLAY"); d != "" {
+						for k, v := range overlay {
+							os.WriteFile(filepath.Join(d, filepath.Base(k)), v, 0o644)
+						}
+					}
+				} else {
+					notes = append(notes, fmt.Sprintf("scalar replacement abandoned (%v)", lerr))
+					for k := range sr {
+						if old, ok := saved[k]; ok {
+							overlay[k] = old
+						} else {
+							delete(overlay, k)
+						}
+					}
+				}
+			}
+		}
 		// helpers that are dead after expansion are not analysed on their own
 		kit.Canonical = map[string]string{}
 		prog.Skip = deadNewHelpers(prog, inTable, prog.DetectRenames(table, kit.RawFuncID, kit.CallID).FuncToCanonical)
